@@ -95,8 +95,24 @@ func fundingWrapper(c *Ctx, rule string, fn *ssa.Function, name string, coreCall
 		obl.expect(kEpi, fn.Pos(), "a success return lies behind the guard `uncovered amount = 0`")
 	}
 	args := coreCall.Call.Args
-	if len(args) < 2 || stripLoadOfParamCell(args[0]) != ssa.Value(fn.Params[0]) && descr(args[0], 0) != fn.Params[0].Name() || args[1] != ssa.Value(fn.Params[1]) {
+	core := staticCallee(coreCall)
+	coreAmount, ownAmount := moneyParam(core), moneyParam(fn)
+	okArgs := len(args) >= 2 && coreAmount != nil && ownAmount != nil &&
+		(stripLoadOfParamCell(args[0]) == ssa.Value(fn.Params[0]) || descr(args[0], 0) == fn.Params[0].Name())
+	if okArgs {
+		ai := paramIndex(coreAmount)
+		okArgs = ai > 0 && ai < len(args) && stripLoadOfParamCell(args[ai]) == ssa.Value(ownAmount)
+	}
+	if !okArgs {
 		obl.violate(kPass, coreCall.Pos(), "the splitting helper is not applied to this funding and the requested amount", nil)
+	}
+	// a funding the helper is given to append to (`f.withdraw(result, amount)`): the wrapper's own first result (whose
+	// parts are accounted below) or a new, empty one
+	var accArgs []ssa.Value
+	for i := 1; i < len(args); i++ {
+		if isNamed(args[i].Type(), pkgMachine, "Funding") {
+			accArgs = append(accArgs, args[i])
+		}
 	}
 	if needExact && leftIdx < 0 {
 		obl.violate(kEpi, coreCall.Pos(), "the splitting helper does not report what it could not cover", nil)
@@ -133,6 +149,32 @@ func fundingWrapper(c *Ctx, rule string, fn *ssa.Function, name string, coreCall
 					}
 				}
 			}
+		}
+	}
+	for _, acc := range accArgs {
+		okAcc := false
+		if u, ok := acc.(*ssa.UnOp); ok && u.Op == token.MUL {
+			if a, ok := u.X.(*ssa.Alloc); ok {
+				if a == resLocal[0] {
+					okAcc = true
+				} else {
+					// a new literal: its Parts field is never assigned
+					assigned := false
+					for _, r := range *a.Referrers() {
+						if fa, ok := r.(*ssa.FieldAddr); ok && sameField(fieldOfAddr(fa), partsF) {
+							for _, rr := range *fa.Referrers() {
+								if st, ok := rr.(*ssa.Store); ok && st.Addr == ssa.Value(fa) {
+									assigned = true
+								}
+							}
+						}
+					}
+					okAcc = !assigned && a.Comment == "complit"
+				}
+			}
+		}
+		if !okAcc {
+			obl.violate(kPass, coreCall.Pos(), "the funding the helper appends to is neither the wrapper's own first result nor a new empty funding: parts of unknown origin are handed out", nil)
 		}
 	}
 	for k := 0; k < 2; k++ {
@@ -304,7 +346,12 @@ func fundingSplit(c *Ctx, rule string, fn *ssa.Function, name string, amountF, a
 		obl.undecided(key("loop-structure"), fn.Pos(), "no loop over the parts, or the two result locals were not found")
 		return
 	}
-	amountSym := affSym(fn.Params[1].Name())
+	amountParam := moneyParam(fn)
+	if amountParam == nil {
+		obl.undecided(key("loop-structure"), fn.Pos(), "the function does not take exactly one amount")
+		return
+	}
+	amountSym := affSym(amountParam.Name())
 	partAmount := func(li *loopInfo) aff { return affSym(li.baseD + "[" + li.elemIdx + "].Amount") }
 	partAccount := func(li *loopInfo) string { return li.baseD + "[" + li.elemIdx + "].Account" }
 
@@ -613,4 +660,18 @@ func affOfHook(p *affPath, v ssa.Value) aff {
 		}
 	}
 	return affSym(descr(v, 0))
+}
+
+// moneyParam: the only parameter of type *MonetaryInt (the requested amount of a splitting function).
+func moneyParam(fn *ssa.Function) *ssa.Parameter {
+	var out *ssa.Parameter
+	for _, p := range fn.Params {
+		if strings.HasSuffix(p.Type().String(), "machine.MonetaryInt") {
+			if out != nil {
+				return nil
+			}
+			out = p
+		}
+	}
+	return out
 }
